@@ -163,6 +163,7 @@ func (c *BaseClient) Connect(ctx context.Context, clientID string, opts ...Conne
 				Code: connAck.Code,
 			}, "received CONNACK")
 		}
+		simYield("base.afterConnAck")
 		c.connStateUpdate(StateActive)
 		return connAck.SessionPresent, nil
 	}
